@@ -170,7 +170,9 @@ class Renderer:
         if k == 'b':
             return 'TRUE' if v else 'FALSE'
         if k == 'e':
-            return v
+            # optional third item: sheet qualifier of the literal as Excel
+            # leaves it behind, e.g. 'Bob''s data'!#REF!
+            return (e[2] if len(e) > 2 else '') + v
         raise ValueError(e)
 
     def ref(self, e, host):
